@@ -236,6 +236,12 @@ fn run_case(c: &Case, tier: Tier) -> Chk<Pass> {
         Expect::Either => { if out.code == Some(0) { pass = pass.label("either:answered"); } else { err_ok(&out)?; pass = pass.label("either:refused"); } }
         Expect::Table { sym, grid, exact, lib_note, .. } => {
             if let Some(n) = lib_note { return bad(format!("{what}: the (i,j) table that the kh command prints (KhHomology::into_bigraded) is not a regrouping of the homology it is derived from: {n}")) }
+            if out.code != Some(0) && !table_on_stdout && (out.stderr.contains("attempt to ") && out.stderr.contains("with overflow")) && !matches!(c.ctype, Some(CT_::F2) | Some(CT_::F3)) {
+                // ykh computes over i64 / Ratio<i64>: an arithmetic overflow inside the computation is an internal failure, which the
+                // contract allows to be reported as an error result (and whether it happens depends on the elimination order of the run)
+                err_ok(&out)?;
+                return discard("machine-overflow-in-cli");
+            }
             if out.code != Some(0) {
                 // a maintainer may restrict support, but then it must be a clean error
                 err_ok(&out)?;
